@@ -126,6 +126,8 @@ def gen_exec(rng):
             toks.append(rng.bytes(rng.choice([1, 2, 4, 5, 20, 75, 76, 255, 256, 520, 521])).hex())
         else:
             toks.append(quote(rng, adversarial_arg(rng)))
+    if rng.chance(8):
+        toks += [(t.hex() or "0") if isinstance(t, bytes) else str(t) for t in G.edge_op(rng)]
     return ["exec"] + toks
 
 
@@ -311,8 +313,10 @@ def gen_btcdeb_interactive(rng):
     if scn.get("spend") and rng.chance(25):
         mutate_spend(rng, scn)
     if scn.get("script") is not None and rng.chance(40):
-        toks = G.failing_op(rng) if rng.chance(50) else G.throwing_op(rng)
+        toks = rng.weighted([(4, G.failing_op(rng)), (4, G.throwing_op(rng)), (3, G.edge_op(rng))])
         workloads.inject_ops(scn, rng, toks)
+        if toks and isinstance(toks[-1], str) and toks[-1] in S.DISABLED and "-z" not in scn["opts"] and rng.chance(75):
+            scn["opts"] = list(scn["opts"]) + ["-z"]
     n = rng.weighted([(3, rng.range(1, 6)), (5, rng.range(6, 25)), (2, rng.range(25, 60))])
     scn["sched"] = gen_sched(rng, n)
     scn["faults"] = gen_faults(rng, len(scn["sched"]), dataset=bool(scn.get("spend")))
